@@ -34,7 +34,11 @@ type Program struct {
 const repoMod = "github.com/fluffle/goirc"
 
 // ExecPkgs are packages whose functions are executed from their SSA bodies.
-var ExecPkgs = []string{repoMod, "github.com/emersion/go-sasl", "errors", "unicode/utf8"}
+var ExecPkgs = []string{repoMod, "github.com/emersion/go-sasl", "errors", "unicode/utf8", "bytes", "strings"}
+
+// (bytes and strings: every function the code under test uses today has a model,
+// which takes precedence; the SSA bodies are the fallback for the others, so a
+// changed tree that calls e.g. bytes.Trim is still executed rather than refused.)
 
 // Load type-checks and builds SSA for the repo packages with harness overlay.
 func Load(repoDir, harnessDir string, patterns ...string) (*Program, error) {
@@ -166,7 +170,7 @@ func (p *Program) executable(fn *ssa.Function) bool {
 // initRuns reports whether a package initializer is interpreted.
 func (p *Program) initRuns(fn *ssa.Function) bool {
 	path := pkgPathOf(fn)
-	return strings.HasPrefix(path, repoMod) || strings.HasPrefix(path, "github.com/emersion/go-sasl") || path == "unicode/utf8"
+	return strings.HasPrefix(path, repoMod) || strings.HasPrefix(path, "github.com/emersion/go-sasl") || path == "unicode/utf8" || path == "bytes" || path == "strings"
 }
 
 func (p *Program) lookupMethod(t types.Type, m *types.Func) *ssa.Function {
